@@ -592,11 +592,13 @@ func dischargeIndex(fn *ssa.Function, at ssa.Instruction, base, idx ssa.Value) (
 				return "index", "range index < len(" + describeVal(base) + ")", true, true
 			}
 			// range over a fixed-size array: the bound is the array length as a constant
+			at := bt
 			if p, isP := bt.(*types.Pointer); isP {
-				if arr, isArr := p.Elem().Underlying().(*types.Array); isArr {
-					if k, isK := constInt(bo.Y); isK && k <= arr.Len() {
-						return "index", fmt.Sprintf("range index < %d ≤ array length", k), true, true
-					}
+				at = p.Elem().Underlying()
+			}
+			if arr, isArr := at.(*types.Array); isArr {
+				if k, isK := constInt(bo.Y); isK && k <= arr.Len() {
+					return "index", fmt.Sprintf("range index < %d ≤ array length", k), true, true
 				}
 			}
 		}
